@@ -166,7 +166,7 @@ def generate(rng):
     if rng.random() < 0.3:
         for _ in range(rng.choice([1, 2, 4])):
             cmds.insert(rng.randrange(len(cmds) + 1), {"op": "badset", "k": hx(rng.choice(pool)), "bad": rng.choice(["str", "none", "int"]), "arg": rng.choice(["value", "value", "key"]), "on": rng.choice(["live", "batch"])})
-    return {"prop": ID, "cfg": {"prune": True, "cache": cache, "rc": rng.choice(["defaultdict", "defaultdict", "counter"]), "ask_dead": int(rng.random() < 0.5)}, "cmds": cmds}
+    return {"prop": ID, "cfg": {"prune": True, "cache": cache, "rc": rng.choice(["defaultdict", "defaultdict", "counter"]), "ask_dead": int(rng.random() < 0.5), "store": rng.choice(["min", "min", "dict"])}, "cmds": cmds}
 
 
 def execute(case, st):
